@@ -787,7 +787,29 @@ func TestVerif_C15_TwoLocalAddresses(t *testing.T) {
 			u := ufrags[rapid.IntRange(0, len(ufrags)-1).Draw(rt, "ufrag")]
 			l := rapid.IntRange(0, 1).Draw(rt, "local")
 			k := key{u, l}
-			switch rapid.SampledFrom([]string{"connect", "connect", "close", "reopen"}).Draw(rt, "op") {
+			switch rapid.SampledFrom([]string{"connect", "connect", "close", "reopen", "removeAndReopen"}).Draw(rt, "op") {
+			case "removeAndReopen":
+				// what an agent restarted with the same ufrag does: remove by ufrag, then ask for connections again
+				mux.RemoveConnByUfrag(u)
+				for ll := range locals {
+					kk := key{u, ll}
+					if handles[kk] != nil {
+						_ = handles[kk].Close()
+					}
+					h, err := mux.GetConnByUfrag(u, false, locals[ll])
+					if err != nil {
+						st.Fail(rt, "C15/two-locals/reopen-failed", "GetConnByUfrag(%s, %s) right after RemoveConnByUfrag: %v (%s)", u, locals[ll], err, strings.Join(hist, "; "))
+
+						continue
+					}
+					handles[kk] = h
+					mux.mu.Lock()
+					under[kk], _ = mux.getConn(u, false, locals[ll])
+					mux.mu.Unlock()
+				}
+				closedOne = true
+				hist = append(hist, fmt.Sprintf("removeAndReopen(%s)", u))
+				c11Jitter(rapid.IntRange(0, 40).Draw(rt, "jitterAfterReopen")) // the stale watchers get their chance
 			case "close":
 				if handles[k] == nil {
 					continue
@@ -796,16 +818,7 @@ func TestVerif_C15_TwoLocalAddresses(t *testing.T) {
 				handles[k] = nil
 				closedOne = true
 				hist = append(hist, fmt.Sprintf("close(%s@%s)", u, locals[l]))
-				// let the mux's close watcher finish its removal
-				for d := time.Now().Add(5 * time.Second); time.Now().Before(d); {
-					mux.mu.Lock()
-					_, still := mux.getConn(u, false, locals[l])
-					mux.mu.Unlock()
-					if !still {
-						break
-					}
-					time.Sleep(50 * time.Microsecond)
-				}
+				// (no waiting for the mux's close watcher: a handle may be re-opened at once)
 			case "reopen":
 				if handles[k] != nil {
 					continue
